@@ -77,6 +77,22 @@ def human_rules(ctx: Ctx):
         ctx.ob(rule, hq.qual, f"return {show(v)[:60]}", uses_replaced and not uses_raw,
                "a return path of human_quote is built from the text before '%' and the position delimiters were replaced: "
                "delimiters survive on that path", where(hq, node), sample="built from the text after the replacement loop")
+    # the query is rendered pair by pair: key and value are the two halves of the *same* element of query.items()
+    # (a lookup query[k] returns the first value of a repeated key)
+    pairs = {}
+    for e in r.by_kind("call"):
+        if e.func[0] == "global" and e.func[2] == "human_quote" and e.args:
+            a = e.args[0]
+            if a[0] == "item" and a[1][0] == "elem":
+                pairs.setdefault(a[1], set()).add(a[2])
+            elif a[0] in ("sub", "call") and any(t == ("attr", S, "query") for t in walk(a)):
+                pairs.setdefault(("lookup", a), set()).add("lookup")
+    ctx.instance(rule)
+    ok = bool(pairs) and all(k[0] == "elem" and k[1][0] == "call" and k[1][1][0] == "attr" and k[1][1][2] == "items" and v == {0, 1}
+                             for k, v in pairs.items())
+    ctx.ob(rule, fi.qual, "query pairs", ok,
+           "the query is not rendered from the (key, value) halves of each element of query.items(): with a repeated key a "
+           "lookup by key shows the first value every time", where(fi, fi.node), sample="for k, v in self.query.items()")
     # F5: every component is rendered, the explicit port is used
     rule5 = "F5"
     ctx.rule(rule5, floor=1, what="human_repr renders every component once and uses the explicit port")
